@@ -27,6 +27,7 @@ REQUIRED_REACH = ["_sktime.py:_SktimeForecaster._update_y_X", "_sktime.py:_Sktim
 REQUIRED_MONITORS = ["memory", "cutoff", "refit-equivalence", "params-frozen", "forecast-from-new-cutoff", "update_predict.equivalence",
                      "update_predict.labels", "update_predict.cutoff-restored", "memory.pipeline"]
 NOT_COVERED = ["data arriving out of time order", "exogenous data", "prediction intervals"]
+# ensembles with n_jobs=2 run under joblib's default (process-based) backend: members live in worker processes during fit / update
 ASSUMPTIONS = ["'refits on update' is decided per spec: leaf forecasters inheriting the default update and composites of those"]
 JOBS = {"quick": 8, "thorough": 16}
 FHS = [[1], [1, 2, 3], [2], [1, 3], [2, 4]]
@@ -42,6 +43,7 @@ COMPOSITES = [
     ["ensemble", {"aggfunc": "mean"}, [["naive", {"strategy": "last"}], ["poly", {"degree": 1}]]],
     ["ensemble", {"aggfunc": "median"}, [["naive", {"strategy": "drift"}], ["poly", {"degree": 2}], ["naive", {"strategy": "mean", "window_length": 3}]]],
     ["multiplex", {"selected": 1}, [["naive", {"strategy": "last"}], ["poly", {"degree": 1}]]],
+    ["ensemble", {"aggfunc": "mean", "n_jobs": 2}, [["naive", {"strategy": "last"}], ["poly", {"degree": 1}], ["naive", {"strategy": "mean", "window_length": 4}]]],
     ["pipeline", {}, [["detrend", {"degree": 1}]], ["naive", {"strategy": "mean", "window_length": 3}]],
     ["pipeline", {}, [["deseason", {"sp": 3, "model": "additive"}], ["detrend", {"degree": 1}]], ["naive", {"strategy": "last"}]],
     ["pipeline", {}, [["log", {}]], ["poly", {"degree": 1}]],
